@@ -4,6 +4,7 @@ import (
 	"strings"
 
 	"github.com/jawher/mow.cli/internal/container"
+	"github.com/jawher/mow.cli/internal/verifhook"
 )
 
 // NewOptions create an Options matcher which can parse a group of options
@@ -30,6 +31,7 @@ func (om *options) Match(args []string, c *ParseContext) (bool, []string) {
 	}
 
 	for {
+		verifhook.Point("matcher.options.loop")
 		ok, nnargs := om.try(nargs, c)
 		if !ok {
 			return true, nargs
